@@ -1,5 +1,6 @@
 import WebrtcVerif.Base.Wire
 import WebrtcVerif.Drv.C05
+import WebrtcVerif.Drv.C19
 import WebrtcVerif.Drv.C22
 import WebrtcVerif.Drv.C36
 import WebrtcVerif.Drv.C40
@@ -13,6 +14,7 @@ open WebrtcVerif
 def runLine (toks : List String) : String :=
   match toks with
   | "C05" :: rest => Drv.C05.run rest
+  | "C19" :: rest => Drv.C19.run rest
   | "C22" :: rest => Drv.C22.run rest
   | "C36" :: rest => Drv.C36.run rest
   | "C40" :: rest => Drv.C40.run rest
@@ -23,6 +25,7 @@ def judgeLine (toks : List String) : String :=
   let out := (toks.dropWhile (· ≠ "=>")).drop 1
   match op with
   | "C05" :: rest => Drv.C05.judge rest out
+  | "C19" :: rest => Drv.C19.judge rest out
   | "C22" :: rest => Drv.C22.judge rest out
   | "C36" :: rest => Drv.C36.judge rest out
   | "C40" :: rest => Drv.C40.judge rest out
